@@ -49,7 +49,8 @@ def triple_event(tc, ts):
 
 
 def ns_event(dendropy, tc, g1, g2, ntaxa, variant):
-    """the same two trees, but built over two distinct namespace objects with equal labels"""
+    """the same two trees, but built over two distinct namespace objects with equal labels: every function,
+    both argument orders, default / explicit False / True flag, while none, one and both trees are encoded"""
     ns1, taxa1 = build.make_namespace(dendropy, ntaxa)
     if variant == "shared_taxa":
         ns2 = dendropy.TaxonNamespace(ns1)          # another namespace object holding the same Taxon objects
@@ -60,24 +61,37 @@ def ns_event(dendropy, tc, g1, g2, ntaxa, variant):
     t2, _ = X.build(dendropy, g2, ns2, taxa2)
     table = X.api_table(tc)
     ev = {"action": "NsRefusal", "variant": variant, "g1": X.graph(t1), "g2": X.graph(t2), "calls": []}
-    for api in X.ALL_APIS:
-        for o, (a, b) in ((1, (t1, t2)), (2, (t2, t1))):
-            c = X.call(table, api, a, b, o)
-            ev["calls"].append({"api": api, "ord": o, "raised": c["raised"]})
+    flag_apis = set(X.FLAG_APIS.values()) | set(["unweighted_robinson_foulds_distance"])
+    for stage in (0, 1, 2):
+        if stage == 1:
+            t1.encode_bipartitions()
+        elif stage == 2:
+            t2.encode_bipartitions()
+        for api in X.ALL_APIS:
+            for fcode, flag in ((0, None), (1, False), (2, True)):
+                if fcode and api not in flag_apis:
+                    continue
+                for o, (a, b) in ((1, (t1, t2)), (2, (t2, t1))):
+                    enc = int(t1.bipartition_encoding is not None) + int(t2.bipartition_encoding is not None)
+                    c = X.call(table, api, a, b, o, flag=flag)
+                    ev["calls"].append({"api": api, "ord": o, "flag": fcode, "enc": enc, "raised": c["raised"]})
     return ev
 
 
 class Hist(object):
     """two real trees and the logging of one history on them"""
 
-    def __init__(self, dendropy, tc, g1, g2, ntaxa, holes=()):
+    def __init__(self, dendropy, tc, g1, g2, ntaxa, holes=(), diff_ns=False):
         self.d = dendropy
         self.table = X.api_table(tc)
         self.ns, self.taxa = build.make_namespace(dendropy, ntaxa, holes=holes)
+        self.samens = not diff_ns
+        # diff_ns: the second tree lives in another namespace object with the same labels and bits
+        ns2, taxa2 = build.make_namespace(dendropy, ntaxa, holes=holes) if diff_ns else (self.ns, self.taxa)
         self.t = [None, None]
         self.nodes = [None, None]
         self.t[0], self.nodes[0] = X.build(dendropy, g1, self.ns, self.taxa)
-        self.t[1], self.nodes[1] = X.build(dendropy, g2, self.ns, self.taxa)
+        self.t[1], self.nodes[1] = X.build(dendropy, g2, ns2, taxa2)
         self.evs = []
         self.skipped = 0
 
@@ -97,6 +111,7 @@ class Hist(object):
                 raised, out = type(ex).__name__, None
         if action == "Dist":
             ev["call"] = out
+            ev["samens"] = self.samens
         else:
             ev["raised"] = raised
         ev.update(self.state("h1", "h2", "d1", "d2"))
@@ -152,6 +167,39 @@ class Hist(object):
             self.skipped += 1
             return
         self.log("Edit", {"op": "Regraft", "i": i + 1}, lambda: y.add_child(x._parent_node.remove_child(x)))
+
+    def leaves(self, i):
+        return [nd for nd in self.all_nodes(i) if not nd._child_nodes]
+
+    def set_rooted_both(self, r):
+        for i in (0, 1):
+            tree = self.t[i]
+            self.log("Edit", {"op": "SetRooted", "i": i + 1}, lambda: setattr(tree, "is_rooted", bool(r)))
+
+    def reroot(self, i, nd):
+        """reroot_at_node on tree i; the other tree is declared rooted as well (both keep one rooting state)"""
+        tree = self.t[i]
+        if nd is None or not nd._child_nodes or nd._parent_node is None or not self.attached(i, nd):
+            self.skipped += 1
+            return
+        self.log("Edit", {"op": "RerootAtNode", "i": i + 1}, lambda: tree.reroot_at_node(nd, update_bipartitions=False))
+        other = self.t[1 - i]
+        if not other.is_rooted:
+            self.log("Edit", {"op": "SetRooted", "i": 2 - i}, lambda: setattr(other, "is_rooted", True))
+
+    def prune_both(self, taxon):
+        """Tree.prune_taxa([taxon]) on both trees (one leaf set before and after); returns the pruned leaf nodes"""
+        hit = []
+        for i in (0, 1):
+            lv = [nd for nd in self.leaves(i) if nd.taxon is taxon]
+            if len(lv) != 1 or len(self.leaves(i)) < 4 or len(lv[0]._parent_node._child_nodes) < 2:
+                self.skipped += 1
+                return None
+            hit.append(lv[0])
+        for i in (0, 1):
+            tree = self.t[i]
+            self.log("Edit", {"op": "PruneTaxon", "i": i + 1}, lambda: tree.prune_taxa([taxon]))
+        return hit
 
     def edit(self, i, op, thunk):
         self.log("Edit", {"op": op, "i": i + 1}, thunk)
@@ -216,7 +264,7 @@ def run_case(case):
     if kind == "ns":
         return [ns_event(dendropy, tc, case["g1"], case["g2"], case["ntaxa"], case["variant"])]
     if kind == "path":
-        h = Hist(dendropy, tc, case["g1"], case["g2"], case["ntaxa"])
+        h = Hist(dendropy, tc, case["g1"], case["g2"], case["ntaxa"], diff_ns=case.get("diff_ns", False))
         for name, args in case["path"]:
             if name == "SwapTaxa":
                 i = args[0] - 1
@@ -224,6 +272,22 @@ def run_case(case):
             elif name == "Regraft":
                 i = args[0] - 1
                 h.regraft(i, h.nodes[i].get(args[1]), h.nodes[i].get(args[2]))
+            elif name == "SetRooted":
+                h.set_rooted_both(args[0])
+            elif name == "Reroot":
+                i = args[0] - 1
+                if h.t[i].is_rooted:
+                    h.reroot(i, h.nodes[i].get(args[1]))
+                else:
+                    h.skipped += 1
+            elif name == "PruneTaxon":
+                hit = h.prune_both(h.taxa[args[0] - 1])
+                if hit:
+                    # the model renumbers: ids above the removed leaf shift down
+                    for i in (0, 1):
+                        x = [k for k, nd in h.nodes[i].items() if nd is hit[i]]
+                        if x:
+                            h.nodes[i] = dict(((k - 1 if k > x[0] else k), nd) for k, nd in h.nodes[i].items() if k != x[0])
             elif name == "Encode":
                 h.encode(args[0] - 1)
             elif name == "Dist":
@@ -239,17 +303,46 @@ def run_case(case):
 
 
 def random_history(dendropy, tc, case, rng):
-    h = Hist(dendropy, tc, case["g1"], case["g2"], case["ntaxa"], holes=tuple(case.get("holes", ())))
+    h = Hist(dendropy, tc, case["g1"], case["g2"], case["ntaxa"], holes=tuple(case.get("holes", ())),
+             diff_ns=case.get("diff_ns", False))
     kinds = ("rf", "fpn", "missing", "wrf", "euc")
+    if case.get("diff_ns"):
+        # two namespace objects: only encodings and (refused) distance calls, every flag value
+        for _ in range(case["nops"]):
+            if rng.random() < 0.3:
+                h.encode(rng.randrange(2))
+            else:
+                h.dist(rng.choice(kinds), rng.random() < 0.5, rng.choice((1, 2)), pick=rng.randrange(6))
+        return h.evs
     for _ in range(case["nops"]):
         i = rng.randrange(2)
+        # edits of the rooting state / the leaf set (of both trees, one after the other: they keep one
+        # rooting state and one leaf set at every distance call)
+        r0 = rng.random()
+        if r0 < 0.05:
+            h.set_rooted_both(not h.t[0].is_rooted)
+            continue
+        if r0 < 0.09:
+            cand = [nd for nd in h.all_nodes(i) if nd._child_nodes and nd._parent_node is not None]
+            if cand and len(h.t[i]._seed_node._child_nodes) >= 2:
+                h.reroot(i, rng.choice(cand))
+            continue
+        if r0 < 0.13:
+            lv = h.leaves(i)
+            if len(lv) > 4:
+                h.prune_both(rng.choice(lv).taxon)
+            continue
         tree = h.t[i]
         nodes = h.all_nodes(i)
         inner = [nd for nd in nodes if nd._child_nodes and nd._parent_node is not None]
         leaves = [nd for nd in nodes if not nd._child_nodes]
         r = rng.random()
         if r < 0.30:
-            h.dist(rng.choice(kinds), False, rng.choice((1, 1, 2)), pick=rng.randrange(6))
+            kind = rng.choice(kinds)
+            h.dist(kind, False, rng.choice((1, 1, 2)), pick=rng.randrange(6))
+            if kind in ("wrf", "euc") and rng.random() < 0.5:
+                # both trees were just encoded by the call: the claim is_bipartitions_updated=True is true
+                h.dist(rng.choice(("wrf", "euc")), True, rng.choice((1, 2)))
         elif r < 0.36:
             h.dist(rng.choice(kinds), True, 1)
         elif r < 0.44:
@@ -325,6 +418,7 @@ def model_paths(ctx, cfg):
             continue
         s0 = states[root[u]]
         cases.append({"kind": "path", "ntaxa": 4, "g1": _strip(s0["t1"]), "g2": _strip(s0["t2"]), "rot": len(cases),
+                      "diff_ns": s0["ns"] == "diff",
                       "path": [[a, list(b)] for a, b in paths[u]] + [[name, list(args)]]})
     os.remove(dot)
     return cases, len(edges)
@@ -346,6 +440,8 @@ def run_models(ctx, tier):
         # staleness machine (dumped graph for the replay); "second tree not re-encoded" must violate DefaultFresh
         lambda: model_paths(ctx, "MC_TreeCompareHist_%s.cfg" % tier),
         lambda: ctx.model("MC_TreeCompareHist", "Mutant_TreeCompareHist.cfg", expect_violation="DefaultFresh", count=False, workers=2, heap=HEAP),
+        # "namespace check behind the is_bipartitions_updated fast path" must violate DiffNsRefused
+        lambda: ctx.model("MC_TreeCompareHist", "Seeded_TreeCompareHist_ns.cfg", expect_violation="DiffNsRefused", count=False, workers=2, heap=HEAP),
     ]
 
     if tier == "thorough":
@@ -405,6 +501,9 @@ def random_cases(ctx, npair, ntriple, nhist, nns):
         ntaxa, holes, g1, g2 = two(nl, rooted)
         cases.append({"kind": "history", "ntaxa": ntaxa, "holes": holes, "g1": g1, "g2": g2, "nops": 24,
                       "seed": ctx.seed * 1000003 + 900000 + k})
+        if k % 10 == 0:
+            cases.append({"kind": "history", "ntaxa": ntaxa, "holes": holes, "g1": g1, "g2": g2, "nops": 10, "diff_ns": True,
+                          "seed": ctx.seed * 1000003 + 950000 + k})
     for k in range(nns):
         nl = rng.randint(3, 9)
         ntaxa, holes, g1, g2 = two(nl, rng.choice((1, 0)))
